@@ -159,6 +159,10 @@ def pool():
 
     def boom(t):
         raise ZeroDivisionError('user failure inside a spec')
+    from glom import Ref, Glommer
+    tree = lambda: {'v': 1, 'kids': [{'v': 2, 'kids': []}]}
+    gm = Glommer()
+    gm.register(P.UA, get=lambda o, k: 'glommer-handler:%s' % k)
     return [
         ('path-1', lambda: {'a': {'b': 1}}, ('a', Y('p1'), 'b')),
         ('path-2', lambda: {'a': {'b': 'two'}, 'q': 1}, {'r': 'a.b', 'y': (Y('p2'), 'a.b', Y('p3'))}),
@@ -172,16 +176,23 @@ def pool():
         ('shared-invoke-1', lambda: {'a': 'one'}, shared_invoke),
         ('shared-invoke-2', lambda: {'a': 'two'}, shared_invoke),
         ('fail-user-exception', lambda: {'a': 1}, ('a', Y('x1'), boom)),
+        # two DIFFERENT recursive specs that use the same Ref name
+        ('ref-tree-1', tree, Ref('node', {'v': ('v', Y('r1')), 'kids': ('kids', [Ref('node')])})),
+        ('ref-tree-2', tree, Ref('node', {'val': (Y('r2'), 'v'), 'tag': Val('B'), 'sub': ('kids', [Ref('node')])})),
+        # calls made through a Glommer with a registry of its own (the module-level registry treats these types differently)
+        ('glommer-type-1', lambda: P.UA(), ('x', Y('m1')), gm.glom),
+        ('glommer-type-2', lambda: {'o': P.UB(), 'l': [P.UA()]}, {'v': ('o', Y('m2'), 'x'), 'w': ('l', Y('m3'), ['x'])}, gm.glom),
     ]
 
 
 def call_body(entry):
     from glom import glom, GlomError
-    name, mk, spec = entry
+    name, mk, spec = entry[:3]
+    caller = entry[3] if len(entry) > 3 else glom
 
     def body():
         try:
-            res = glom(mk(), spec)
+            res = caller(mk(), spec)
             return ['ok', scrub(repr(res))]
         except GlomError as e:
             return ['err', type(e).__name__, scrub(str(e))]
@@ -363,13 +374,13 @@ def compress(trace):
     return out
 
 
-PAIRS = [(0, 1), (0, 0), (2, 3), (2, 2), (4, 5), (4, 4), (6, 6), (7, 8), (0, 7), (6, 2), (4, 0), (5, 8), (9, 10), (9, 9), (11, 7)]
+PAIRS = [(0, 1), (0, 0), (2, 3), (2, 2), (4, 5), (4, 4), (6, 6), (7, 8), (0, 7), (6, 2), (4, 0), (5, 8), (9, 10), (9, 9), (11, 7), (12, 13), (14, 4), (15, 5)]
 
 
 def gen_lines(tier):
     """preemption bound 1: `first` pauses at its k-th line point, `second` runs to completion, `first` resumes"""
     cases = []
-    pairs = PAIRS if tier == 'quick' else [(i, j) for i in range(len(pool())) for j in range(len(pool())) if i <= j]
+    pairs = PAIRS[:16] if tier == 'quick' else [(i, j) for i in range(len(pool())) for j in range(len(pool())) if i <= j]
     step = 2 if tier == 'quick' else 1
     for i, j in pairs:
         for first, second, idx in ((0, 1, i), (1, 0, j)):
@@ -425,7 +436,8 @@ def run_reentrant(case):
         records = []
 
         def make(level):
-            name, mk, spec = p[chain[level]]
+            name, mk, spec = p[chain[level]][:3]
+            caller = p[chain[level]][3] if len(p[chain[level]]) > 3 else glom
             if level + 1 < len(chain):
                 inner = make(level + 1)
 
@@ -444,7 +456,7 @@ def run_reentrant(case):
 
             def run():
                 try:
-                    res = glom(mk(), full)
+                    res = caller(mk(), full)
                     out = ['ok', scrub(repr(res))]
                 except GlomError as e:
                     out = ['err', type(e).__name__, scrub(str(e))]
